@@ -5,7 +5,16 @@ Part 2 (family `pipe`): Queue + QueueDriver + worker (`Server`, `ShiftedServer`)
 `Simulation`; the delivery schedule of the run is recorded by harness wrappers and replayed through
 the Lean event-level model (GUIDE rule 8).
 
-Lean side: `HappyModel/C08/*`, theorems `HappyProofs/C08/Props.lean`.
+Part 3 (family `indus`, module `c08_indus.py`): the industrial variants RenegingQueuedResource,
+PooledCycleResource, BatchProcessor, ConveyorBelt, GateController inside a real `Simulation`; item-state
+partition, limits, order, no-strand and counters judged on the implementation transcript
+(`HappyModel/C08/Indus.lean`), executable models in `IndusModel.lean`.
+
+The policy operation language covers every public method of every policy: push, pop, peek, len/is_empty
+(every line), statistics (every line), `DeadlineQueue.purge_expired`, and the read-only accessors
+(`count_expired`/`count_valid`, `get_flow_depth`/`flow_count`/`get_flow_weight`, `is_congested`).
+
+Lean side: `HappyModel/C08/*`, theorems `HappyProofs/C08/Props.lean`, `HappyProofs/C08/IndusProps.lean`.
 """
 from __future__ import annotations
 
@@ -21,6 +30,7 @@ import types
 from pathlib import Path
 
 from hv import core
+from hv.props import c08_indus as indus
 
 KINDS = ["fifo", "lifo", "prio", "deadline", "adaptive", "red", "codel", "fair", "wfq"]
 HAS_STATS = {"deadline", "adaptive", "red", "codel", "fair", "wfq"}
@@ -113,6 +123,20 @@ def policy_stats(cfg, pol):
     return out
 
 
+def policy_accessors(cfg, inner, flow):
+    """the read-only public accessors beyond len/is_empty/stats (same convention as `query` in Policy.lean)"""
+    kind = cfg["kind"]
+    if kind == "deadline":
+        return [inner.count_expired(), inner.count_valid()]
+    if kind == "fair":
+        return [inner.get_flow_depth(flow), inner.flow_count]
+    if kind == "wfq":
+        return [inner.get_flow_depth(flow), inner.flow_count, inner.get_flow_weight(flow)]
+    if kind == "adaptive":
+        return [1 if inner.is_congested else 0]
+    return []
+
+
 def conservation_triple(cfg, stats):
     """(enqueued, dequeued, dropped-after-acceptance) from the canonical statistics list, or None"""
     kind = cfg["kind"]
@@ -152,11 +176,22 @@ def run_policy(cfg, ops, record=False):
             after = inner.stats.dropped if kind == "codel" else 0
             head = f"pop {'none' if r is None else r.id}"
             rec.append(["pop", op[1], after - before])
-        else:
+        elif op[0] == "peek":
             now_ref[0] = op[1]
             r = pol.peek()
             head = f"peek {'none' if r is None else r.id}"
             rec.append(["peek", op[1]])
+        elif op[0] == "purge":
+            # DeadlineQueue.purge_expired(); the other policies have no such method (no-op, 0)
+            now_ref[0] = op[1]
+            n = inner.purge_expired() if hasattr(inner, "purge_expired") else 0
+            head = f"purge {n}"
+            rec.append(["purge", op[1]])
+        else:
+            now_ref[0] = op[1]
+            vals = policy_accessors(cfg, inner, op[2])
+            head = "query " + (",".join(map(str, vals)) if vals else "-")
+            rec.append(["query", op[1], op[2]])
         if pol.is_empty() != (len(pol) == 0):
             head += " EMPTY-FLAG-WRONG"
         st = " ".join(map(str, policy_stats(cfg, pol)))
@@ -177,21 +212,24 @@ def op_line(cfg, op):
         return f"push {id_} {key} {flow} {now} {coin} {rdrop}"
     if op[0] == "pop":
         return f"pop {op[1]} {op[2] if len(op) > 2 else 0}"
-    return f"peek {op[1]}"
+    if op[0] == "query":
+        return f"query {op[1]} {op[2]}"
+    return f"{op[0]} {op[1]}"
 
 
 class C08(core.Property):
     id = "C08"
     driver = "drv-c08"
-    lake_targets = ["HappyProofs.C08.Props", "drv-c08"]
-    audit_imports = ["HappyProofs.C08.Props"]
+    lake_targets = ["HappyProofs.C08.Props", "HappyProofs.C08.IndusProps", "drv-c08"]
+    audit_imports = ["HappyProofs.C08.Props", "HappyProofs.C08.IndusProps"]
     lean_files = ["HappyModel/C08/*.lean", "HappyProofs/C08/*.lean", "HappyModel/Proto.lean", "Driver/C08.lean"]
     theorems = []
     quick_cases = 2400
     thorough_cases = 80000
     case_timeout_s = 20
-    rule = ("family policy: ≤40 push/pop/peek operations on one real policy object (9 policies, optional balking wrapper, "
-            "capacities 1–3 and unbounded, ties in priority/deadline, clock moving past deadlines); family pipe: ≤12 requests "
+    rule = ("family policy: ≤60 push/pop/peek/purge_expired/accessor operations on one real policy object (9 policies, optional balking wrapper, "
+            "capacities 1–3 and unbounded, ties in priority/deadline, clock moving past deadlines, DeadlineQueue housekeeping rounds: bursts of "
+            "3–12 spread deadlines, clock jump, count_expired/count_valid, purge_expired, drain); family pipe: ≤12 requests "
             "arriving at a Server/ShiftedServer in bursts on one nanosecond through forwarder chains of 0–3 hops, service "
             "times on a 0.25 s grid, concurrency 1–3, queue capacity 0–3 or unbounded, FIFO/LIFO/priority queue; a case is "
             "non-trivial when it has a pop of a non-empty queue (policy) or a request that waited (pipe); distinct = distinct case content")
@@ -216,15 +254,14 @@ class C08(core.Property):
         "HappyModel.C08.Pipe.item_state_partition_partial": "counting form: accepted = waiting + in transit + in service + completed at every point; "
                                                            "the identity form (item_state_partition_full: every offered id in exactly one population, completed at most once) "
                                                            "is stated as a def and checked by the Lean judge on every implementation run, not proved",
-        "HappyModel.C08.fifo_order": "order refinement proved for the positional policies (FIFO, RED, CoDel, LIFO, AdaptiveLIFO, each with/without balking); "
-                                     "prio_stable_full, deadline_order_expiry_full, fair_rr_full are stated as defs, not proved: for PriorityQueue, DeadlineQueue, FairQueue, "
-                                     "WeightedFairQueue the order law is checked on every run by the Lean judge (list specification) and by model = implementation",
         "HappyModel.C08.held_le_capacity": "all policies constructed with `capacity`; FairQueue's bound max_flows*per_flow_capacity is only checked by the judge",
     }
     variants = ["repaired", "current"]
 
     # ------------------------------------------------------------------ generation
     def generate(self, rng: random.Random, i: int, tier: str) -> dict:
+        if i % 5 == 4:
+            return indus.generate(rng, i, tier)
         if i % 3 == 2:
             return pipe.generate(rng, i, tier)
         return self.gen_policy(rng, tier)
@@ -251,6 +288,10 @@ class C08(core.Property):
         if rng.random() < 0.2:
             cfg["balk"] = rng.choice([0, 1, 2, 3])
             cfg["balk_p"] = rng.choice([0, 50, 100, 100])
+        if kind == "deadline" and rng.random() < 0.5:
+            if cfg.get("cap") is not None and rng.random() < 0.7:
+                cfg["cap"] = rng.choice([None, 6, 8, 12])
+            return self.fill_oracles({"family": "policy", "cfg": cfg, "ops": self.gen_deadline_rounds(rng)})
         n = rng.choice([4, 8, 16, 30, 40])
         ops, now, nid = [], 0, 0
         nflows = rng.choice([1, 2, 3, 4])
@@ -265,16 +306,57 @@ class C08(core.Property):
             if r < p_push:
                 key = rng.choice(keys)
                 if kind == "deadline":
-                    key = now + rng.choice([-2, -1, 0, 0, 1, 2, 3, 7])
+                    key = now + rng.choice([-2, -1, 0, 0, 1, 2, 3, 7, 20, 40])
                     key = max(0, key)
                 ops.append(["push", nid, key, rng.randrange(nflows), now, rng.choice([0, 49, 50, 99])])
                 nid += 1
-            elif r < 0.92:
+            elif r < 0.88:
                 ops.append(["pop", now])
+            elif r < 0.93:
+                ops.append(["peek", now])
+            elif kind == "deadline" and rng.random() < 0.6:
+                ops.append(["purge", now])
+            elif kind in ("deadline", "fair", "wfq", "adaptive"):
+                ops.append(["query", now, rng.randrange(nflows + 1)])
             else:
                 ops.append(["peek", now])
         case = {"family": "policy", "cfg": cfg, "ops": ops}
         return self.fill_oracles(case)
+
+    @staticmethod
+    def gen_deadline_rounds(rng):
+        """DeadlineQueue housekeeping: rounds of (burst of pushes with deadlines spread from 'about to expire'
+        to 'far away', in any order, with ties) → the clock jumps over some of the deadlines (also exactly
+        onto one: `deadline == now` is still live) → accessors / purge_expired / pop-side expiry → a drain
+        by pops and peeks, during which the clock may move on"""
+        ops, now, nid = [], rng.choice([0, 3, 10]), 0
+        for _ in range(rng.choice([1, 1, 2, 3])):
+            m = rng.choice([3, 5, 7, 9, 12])
+            near = [now + d for d in (0, 1, 1, 2, 3, 4)]
+            far = [now + d for d in rng.sample(range(5, 120), k=rng.choice([2, 4, 8]))]
+            mix = rng.choice([0.2, 0.35, 0.5])
+            for _ in range(m):
+                key = rng.choice(near) if rng.random() < mix else rng.choice(far)
+                ops.append(["push", nid, key, 0, now, 0])
+                nid += 1
+                if rng.random() < 0.1:
+                    ops.append(["pop", now])
+            now += rng.choice([1, 2, 3, 4, 5, 6])
+            if rng.random() < 0.4:
+                ops.append(["query", now, 0])
+            if rng.random() < 0.75:
+                ops.append(["purge", now])
+            if rng.random() < 0.3:
+                ops.append(["query", now, 0])
+            for _ in range(rng.choice([1, 2, m // 2, m, m + 2])):
+                r = rng.random()
+                if r < 0.12:
+                    ops.append(["peek", now])
+                elif r < 0.2:
+                    now += rng.choice([1, 3, 30])
+                    ops.append(["purge", now])
+                ops.append(["pop", now])
+        return ops
 
     def fill_oracles(self, case):
         """RED drop decisions / CoDel drop counts are inputs of the model: record what the real policy did"""
@@ -290,12 +372,16 @@ class C08(core.Property):
 
     # ------------------------------------------------------------------ implementation
     def run_impl(self, case):
+        if case["family"] == "indus":
+            return indus.run_impl(case)
         if case["family"] == "pipe":
             return pipe.run_impl(case)
         return run_policy(case["cfg"], case["ops"])
 
     # ------------------------------------------------------------------ model / judge
     def model_block(self, case, variant):
+        if case["family"] == "indus":
+            return indus.model_block(case, variant)
         if case["family"] == "pipe":
             return pipe.model_block(case, variant)
         cfg = case["cfg"]
@@ -307,6 +393,8 @@ class C08(core.Property):
     def judge_block(self, case, impl_out):
         if impl_out and impl_out[0].startswith("IMPL-"):
             return None
+        if case["family"] == "indus":
+            return indus.judge_block(case, impl_out)
         if case["family"] == "pipe":
             return pipe.judge_block(case, impl_out)
         cfg = case["cfg"]
@@ -323,6 +411,8 @@ class C08(core.Property):
         return ("judge-policy " + cfg_header(cfg), body)
 
     def nontrivial_key(self, case, impl_out):
+        if case["family"] == "indus":
+            return indus.nontrivial_key(case, impl_out)
         if case["family"] == "pipe":
             return pipe.nontrivial_key(case, impl_out)
         for line in impl_out:
@@ -331,6 +421,9 @@ class C08(core.Property):
         return None
 
     def shrink(self, case):
+        if case["family"] == "indus":
+            yield from indus.shrink(case)
+            return
         if case["family"] == "pipe":
             yield from pipe.shrink(case)
             return
@@ -346,6 +439,8 @@ class C08(core.Property):
             step //= 2
 
     def mutate(self, case, rng):
+        if case["family"] == "indus":
+            return indus.mutate(case, rng)
         if case["family"] == "pipe":
             return pipe.mutate(case, rng)
         xs = [list(x) for x in case["ops"]]
@@ -627,6 +722,8 @@ def pipe_nontrivial_key(case, impl_out):
     arr = {}
     for l in impl_out:
         t = l.split()
+        if len(t) < 3:
+            continue
         if t[1] == "arr":
             arr[t[2]] = t[0]
         elif t[1] == "work" and arr.get(t[2]) not in (None, t[0]):
@@ -685,6 +782,13 @@ THEOREMS: list[str] = [
     "HappyModel.C08.held_le_capacity",
     "HappyModel.C08.fifo_order",
     "HappyModel.C08.lifo_order",
+    "HappyModel.C08.prio_stable",
+    "HappyModel.C08.deadline_order_expiry",
+    "HappyModel.C08.spec_prio_pop",
+    "HappyModel.C08.spec_deadline_pop",
+    "HappyModel.C08.firstMin_is_stable_min",
+    "HappyModel.C08.fair_rr",
+    "HappyModel.C08.spec_fair_pop",
     "HappyModel.C08.spec_fifo_pop",
     "HappyModel.C08.spec_lifo_pop",
     "HappyModel.C08.Pipe.in_service_le_limit",
@@ -697,5 +801,8 @@ THEOREMS: list[str] = [
     "HappyModel.C08.Pipe.shift_change_strands_current",
     "HappyModel.C08.Pipe.dispatched_before_payload_breaks",
 ]
-C08.theorems = THEOREMS
+C08.theorems = THEOREMS + indus.THEOREMS
+C08.partial_theorems = {**C08.partial_theorems, **indus.PARTIAL_THEOREMS}
+C08.trusted_base = C08.trusted_base + indus.TRUSTED_BASE
+C08.rule = C08.rule + "; " + indus.RULE
 PROPERTY = C08()
